@@ -452,10 +452,10 @@ func (ex *explorer) runOne(entry *ssa.Function, item workItem) (res PathResult) 
 				res.PanicMsg = string(p)
 			case runtime.Error:
 				res.Status = "engine-error"
-				res.Detail = p.Error() + "\n" + string(debug.Stack())
+				res.Detail = p.Error() + "\n" + shortStack()
 			default:
 				res.Status = "engine-error"
-				res.Detail = fmt.Sprint(p) + "\n" + string(debug.Stack())
+				res.Detail = fmt.Sprint(p) + "\n" + shortStack()
 			}
 		}
 		i.curFrame = nil
@@ -579,13 +579,16 @@ func (ex *explorer) finish(res *PathResult) {
 }
 
 func hashPrefix(p []decision, n int) uint32 {
+	// only the decision values: term identities differ from process to process
 	var h uint32 = 2166136261
 	for k := 0; k < n && k < len(p); k++ {
-		h ^= uint32(p[k].cond.ID)
-		h *= 16777619
 		if p[k].val {
-			h ^= 1
+			h ^= 0x9e
+		} else {
+			h ^= 0x3b
 		}
+		h *= 16777619
+		h ^= uint32(k)
 		h *= 16777619
 	}
 	return h
@@ -705,4 +708,19 @@ func firstFrame(where string) string {
 		return where[:k]
 	}
 	return where
+}
+
+// shortStack returns the interpreter frames nearest to the failure.
+func shortStack() string {
+	lines := strings.Split(string(debug.Stack()), "\n")
+	var keep []string
+	for _, l := range lines {
+		if strings.Contains(l, "/verif/engine/") && !strings.Contains(l, "explore.go") && !strings.Contains(l, "runFrame") {
+			keep = append(keep, strings.TrimSpace(l))
+			if len(keep) >= 6 {
+				break
+			}
+		}
+	}
+	return strings.Join(keep, " | ")
 }
